@@ -4,13 +4,10 @@ import json, subprocess, os
 V = os.path.dirname(os.path.dirname(os.path.abspath(__file__)))
 props = [json.loads(l) for l in open(os.path.join(V, "properties.jsonl"))]
 
-CLAIMS = {
- "C12": dict(
-   text="Theorems c12_limits_sound and c12_range_scan_exact (Coq, all patterns / names / sorted name lists, both directions): a name accepted by the transcribed matcher lies inside the range the transcribed Parse returns, hence range-limited iteration + Match selects exactly the matching names. The models (wildcardMatch, scanChunk, matchChunk, getEsc, utf8 decoding, Parse, multiGlobParse) are tied to /repo by running the extracted OCaml model and internal/glob on the same pattern/name pairs and by black-box KEYS/SCAN/SEARCH/PDEL/CHANS queries against client-side filtering.",
-   note="Trusted: Coq kernel; extraction (ExtrOcamlBasic); the harness; B-tree Ascend/Descend modelled as iteration over a sorted list. The hypothesis prefix_ends_ff p = false is necessary (c12_limits_ff_refuted, open known finding C12-ff). WHERE/WHEREIN value order is covered by the black-box oracle only.",
-   technique="Coq proof over a hand-written model + differential correspondence (extracted OCaml vs Go) + direct oracle",
-   design="DESIGN.md section 5 C12"),
-}
+import glob
+CLAIMS = {}
+for f in sorted(glob.glob(os.path.join(V, "tools", "claims", "C*.json"))):
+    CLAIMS[os.path.basename(f)[:-5]] = json.load(open(f))
 REASON_TODO = "check not built yet in this round; the design for it is DESIGN.md section 5 (no technique limitation)"
 
 commits = subprocess.run(["git", "-C", "/repo", "log", "--format=%H %s"], capture_output=True, text=True).stdout.strip().split("\n")
